@@ -229,6 +229,9 @@ func checkChain(c sim.ChainCase) error {
 			if err := sim.ElementsHazard(au); err != nil {
 				return stats.Failf("C05/created-elements-share-memory", "height %d: %v", ch.Height(), err)
 			}
+			if err := sim.IngestThenRefresh(au, newB); err != nil {
+				return stats.Failf("C05/ingest-then-refresh", "height %d: %v", ch.Height(), err)
+			}
 			updated := len(au.SiacoinElementDiffs()) > 0
 			if o, nn := parent.Elements.NumLeaves, ch.Tip().Elements.NumLeaves; updated && (o^nn) > o {
 				sawMerge = true // growth carried into a higher bit: trees merged
